@@ -318,7 +318,7 @@ def save_replay(prop, obj):
 
 
 def write_evidence(prop, tier, seed, level, coverage, wall, violations=0, assumptions=()):
-    d = os.path.join(VERIF, "evidence")
+    d = os.environ.get("VERIF_EVIDENCE_DIR") or os.path.join(VERIF, "evidence")   # (mutation runs redirect their evidence)
     os.makedirs(d, exist_ok=True)
     ev = {"property_id": prop, "tier": tier, "seed": int(seed), "level": level, "coverage": coverage,
           "assumptions": list(assumptions), "wall_s": round(wall, 2), "violations": int(violations)}
